@@ -28,7 +28,7 @@ pub trait MatT: Copy + 'static {
     fn scal_forms(a: &Self, s: Self::T) -> Forms<Self>;
     fn div_forms(a: &Self, s: Self::T) -> Forms<Self>;
     fn mulv_forms(a: &Self, v: &[Self::T]) -> Forms<[Self::T; 4]>;
-    fn fold_forms(a: &Self, b: &Self) -> (Forms<Self>, Forms<Self>);
+    fn fold_forms(l: &[Self]) -> (Forms<Self>, Forms<Self>);
 }
 
 fn pad<T: Copy + Default, const K: usize>(a: [T; K]) -> [T; 4] {
@@ -97,8 +97,7 @@ macro_rules! mat_impl {
                 $extra
                 $o
             }
-            fn fold_forms(a: &Self, b: &Self) -> (Forms<Self>, Forms<Self>) {
-                let l = [*a, *b];
+            fn fold_forms(l: &[Self]) -> (Forms<Self>, Forms<Self>) {
                 (
                     vec![("Product by value", l.iter().copied().product()), ("Product by ref", l.iter().product())],
                     vec![("Sum by value", l.iter().copied().sum()), ("Sum by ref", l.iter().sum())],
@@ -310,9 +309,47 @@ fn check_lattice<M: MatT>(w: &[u64], t: &mut Tally) -> Result<(), Fail> {
     for (form, g) in M::mul_forms(&ma, &mb) {
         exact_mat::<M>("mul_mat", form, &g, &p, &ctx)?;
     }
-    let (prods, sums) = M::fold_forms(&ma, &mb);
+    let (prods, sums) = M::fold_forms(&[ma, mb]);
     for (form, g) in prods {
         exact_mat::<M>("product", form, &g, &p, &ctx)?;
+    }
+    // folds over zero, one and three items: the empty product is the identity, the empty sum is zero, order is kept
+    {
+        let idm = RM::<i128>::from_cols(n, &(0..nn).map(|i| (i / n == i % n) as i128).collect::<Vec<_>>());
+        let zm = RM::<i128>::zero(n);
+        let (p0, s0) = M::fold_forms(&[]);
+        for (form, g) in p0 {
+            exact_mat::<M>("product of no items", form, &g, &idm, &ctx)?;
+        }
+        for (form, g) in s0 {
+            exact_mat::<M>("sum of no items", form, &g, &zm, &ctx)?;
+        }
+        let (p1, s1) = M::fold_forms(&[mb]);
+        for (form, g) in p1.into_iter().chain(s1) {
+            exact_mat::<M>("fold of one item B", form, &g, &bi, &ctx)?;
+        }
+        // third item: A transposed
+        let ct: Vec<i64> = (0..nn).map(|i| a[(i % n) * n + i / n]).collect();
+        let ci = RM::<i128>::from_cols(n, &to_i128(&ct));
+        let mc = M::mk(&to_t::<M::T>(&ct));
+        let (p3, s3) = M::fold_forms(&[ma, mb, mc]);
+        let mut sum3 = RM::<i128>::zero(n);
+        for c in 0..n {
+            for r in 0..n {
+                sum3.e[c][r] = ai.e[c][r] + bi.e[c][r] + ci.e[c][r];
+            }
+        }
+        for (form, g) in s3 {
+            exact_mat::<M>("sum of [A, B, At]", form, &g, &sum3, &ctx)?;
+        }
+        let bound = ai.abs().mul(&bi.abs()).mul(&ci.abs());
+        let lim = exact_limit::<M::T>();
+        if (0..n).all(|c| (0..n).all(|r| bound.e[c][r] < lim)) {
+            let p3e = p.mul(&ci);
+            for (form, g) in p3 {
+                exact_mat::<M>("product of [A, B, At]", form, &g, &p3e, &ctx)?;
+            }
+        }
     }
     let vi: Vec<i128> = to_i128(&v);
     let pv = ai.mulv(&vi);
